@@ -118,6 +118,8 @@ def run_species(case):
     if not i1 or not i2:
         raise Skip()
     x, y = call(s1, s2)
+    if not np.all(np.isfinite(y)):
+        raise Violation('species-rdf-finite', f'{s1}-{s2}: y = {y.tolist()[:6]} for max_dist={mx!r}, resolution={res!r}')
     check_edges(x, res, mx, closed_right=False)
     edges = np.append(x, x[-1] + res)
     vol = oracle.volume(M)
@@ -254,8 +256,18 @@ def run_states(case):
 
 
 def _rdf_params(draw, c):
-    c['max_dist'] = float(draw(st.one_of(st.floats(1.0, 6.0), st.sampled_from([1.0, 2.5, 5.0]))))
-    c['resolution'] = float(draw(st.one_of(st.floats(0.1, 1.0), st.sampled_from([0.1, 0.25, 0.5, 1.0]))))
+    mode = draw(st.sampled_from(['float', 'float', 'float', 'int', 'bin-count']))
+    if mode == 'int':
+        # plain Python integers are valid lengths too
+        c['max_dist'], c['resolution'] = draw(st.sampled_from([(6, 2), (5, 1), (4, 2), (3, 1), (6, 3)]))
+    elif mode == 'bin-count':
+        # a particular number of bin edges (around 128 / 256 / 512)
+        k = draw(st.sampled_from([127, 128, 129, 255, 256, 257, 511, 512]))
+        c['resolution'] = float(draw(st.sampled_from([0.02, 0.01, 0.0125])))
+        c['max_dist'] = float(c['resolution'] * (k - 1) + draw(st.sampled_from([0.0, 0.3, 0.7])) * c['resolution'])
+    else:
+        c['max_dist'] = float(draw(st.one_of(st.floats(1.0, 6.0), st.sampled_from([1.0, 2.5, 5.0]))))
+        c['resolution'] = float(draw(st.one_of(st.floats(0.1, 1.0), st.sampled_from([0.1, 0.25, 0.5, 1.0]))))
     return c
 
 
